@@ -111,7 +111,7 @@ CLAIMED = {
         "is written. delete/incr/decr/touch/flush_all: the command handed to the exchange function equals the documented format with "
         "the noreply marker iff the call does not wait. All for bytes and str keys, any prefix, ascii and utf-8 encodings.",
    note="Known finding (not repaired: pinned test asserts it): the empty key is accepted; re-confirmed by witness replay each run. Not yet "
-        "mechanised: command text of the fetch family, delete_many, version/quit/shutdown; the strict-parse uniqueness lemma. Trusted: pyvc, "
+        "mechanised: command text of stats/version/quit/shutdown; the strict-parse uniqueness lemma. get/gets/gat/gats and get_many/gets_many (any number of keys, one-shot iterators included; empty collections send nothing) are covered. Trusted: pyvc, "
         "z3/cvc5 strings, A-int/A-enc axioms, serde returns bytes|str|int with 16-bit flags, integer arguments within protocol ranges.",
    technique="contract-based deductive verification: loop invariants + per-path string VCs over the real command builders (cvc5 + z3)",
    ref="5 C02"),
@@ -122,7 +122,7 @@ CLAIMED = {
         "cut lemma (uniqueness of the first split). Proved at every exit: Sync(client) - the socket is dropped and closed, or nothing "
         "of the answer is unread or buffered; nothing is read with noreply; exactly one unit per command otherwise; the batch is sent "
         "once. delete/incr/decr/touch/flush_all/delete_many: the command carries the noreply marker iff the method does not wait.",
-   note="_fetch_cmd/_extract_value (single-key fetches) and the set/get families are covered the same way. Not yet mechanised: multi-key fetches, stats, set_many's wrapper, version/quit/shutdown, HashClient wrappers. Trusted: "
+   note="_fetch_cmd/_extract_value (single-key and multi-key fetches over a key collection of any length) and the set/get families are covered the same way. Not yet mechanised: stats, set_many's wrapper, version/quit/shutdown, HashClient wrappers. Trusted: "
         "reader contracts (C03), _connect contract (C06), causality of the reply stream, the meta-lemma composing per-call Sync into the "
         "sequence-level statement. Termination ('never blocks') is outside this family.",
    technique="contract-based deductive verification: ghost reply stream, loop invariants, cut lemmas; string VCs by cvc5 + z3",
@@ -205,15 +205,16 @@ CLAIMED = {
    technique="contract-based deductive verification: loop invariants over ghost tables (z3); text parsing by bounded enumeration",
    ref="5 C19"),
  "C04": dict(
-   text="Client._fetch_cmd and _extract_value (single-key get/gets/gat/gats) are executed symbolically from the real source against the reply "
+   text="Client._fetch_cmd and _extract_value (get/gets/gat/gats and get_many/gets_many over a key collection of any length, re-iterable or one-shot) are executed symbolically from the real source against the reply "
         "format of a faithful server - N item blocks 'VALUE <key> <flags> <bytes>[ <cas>]' + data of exactly that many ARBITRARY bytes, then "
         "one terminal line - with a loop invariant (buf ++ unread == U(items consumed); result holds the last item under the caller's "
         "own key object) and two cut lemmas per iteration (first-split uniqueness for the header, length-prefixed block for the data). "
         "Proved: the value handed to the serde is exactly the data block (binary safety, any size), with its flags and cas token; a hit "
         "returns deserialize(caller's key, data, flags); no item -> empty; the prefix is on the wire (C02) and never in the result.",
    note="The end-to-end statement get(set(v)) == v is the composition of this contract with C02 (what a store sends) and C15 (serde inverse) "
-        "against the assumed server format; that composition is an argument over machine-checked contracts, not a fourth proof. NOT "
-        "COVERED: multi-key fetches and key collections given as one-shot iterators. Reader contracts re-proved as dep:C03.",
+        "against the assumed server format; that composition is an argument over machine-checked contracts, not a fourth proof. Multi-key: "
+        "every returned key is the caller's own key object for that wire key (cut lemma over dict(zip(prefixed, keys)); the one-shot iterator "
+        "defect it exposed is repaired in /repo e277692); repeated keys are decided by bounded replay only. Reader contracts re-proved as dep:C03.",
    technique="contract-based deductive verification: loop invariant + cut lemmas over a ghost reply stream (cvc5 + z3)",
    ref="5 C04"),
  "C05": dict(
@@ -223,7 +224,7 @@ CLAIMED = {
         "for each server outcome and the documented constant with noreply, with the documented noreply defaults.",
    note="The history-level statement (client + faithful server is indistinguishable from an in-memory map) is the composition of these "
         "per-call facts with C01/C02; the induction over histories is stated, not mechanised, and exercised by a bounded replay (random "
-        "histories against a faithful fake server). NOT COVERED: set_many's failed-key list, get_many/gets_many, stats/version.",
+        "histories against a faithful fake server). NOT COVERED: set_many's failed-key list, HashClient multi-key results, stats/version.",
    technique="contract-based deductive verification: finite case VCs per method over exchange-function contracts (z3 + cvc5)",
    ref="5 C05"),
 }
